@@ -54,12 +54,12 @@ def scenarios(tier):
                 # (a) crashes only; every byte offset of every write is a torn-write crash point
                 if gi < 2 or (gi == 2 and thorough):
                     if thorough or gi == 0 or not delete:
-                        out.append(dict(base, budget=[2, 0, 0] if thorough and gi == 0 else [1, 0, 0],
+                        out.append(dict(base, budget=[2, 0, 0] if thorough and gi == 0 and diag else [1, 0, 0],
                                         torn="every"))
                 # (b) crashes combined with skipped repetitions and clock jumps (partial saves at
                 #     arbitrary repetitions), coarse torn prefixes {1, n/2, n-1}
                 if thorough:
-                    budget = [2, 1, 1] if gi < 2 else [1, 1, 1]
+                    budget = [2, 1, 1] if (gi == 0 and diag) else ([2, 0, 1] if gi < 2 else [1, 1, 1])
                 else:
                     budget = [1, 1, 1] if gi in (0, 1, 3) else ([1, 1, 0] if gi == 2 else [1, 0, 1])
                     if gi == 4 and delete:
